@@ -769,9 +769,11 @@ Definition apply_op (o : op) (n : node) : node :=
                                                              (map spec_s sin) (map spec_s sout) [] [] []])
                           else m) n
   | OConnD p i o => at_path p (fun m => match connect_d (nkids m) (i, o) with Ok K => set_nkids m K | Err _ => m end) n
-  | ODiscD p i o => at_path p (fun m => set_nkids m (disc_d (nkids m) i o)) n
+  | ODiscD p i o => at_path p (fun m => if has_key (din (nkids m)) i && has_key (dout (nkids m)) o
+                                        then set_nkids m (disc_d (nkids m) i o) else m) n
   | OConnS p i o => at_path p (fun m => match connect_s (nkids m) (i, o) with Ok K => set_nkids m K | Err _ => m end) n
-  | ODiscS p i o => at_path p (fun m => set_nkids m (disc_s (nkids m) i o)) n
+  | ODiscS p i o => at_path p (fun m => if has_key (sinv (nkids m)) i && has_key (soutv (nkids m)) o
+                                        then set_nkids m (disc_s (nkids m) i o) else m) n
   | OSetIn p l v => at_path p (fun m => if nrunning m then m else set_nins m (setval l v (nins m))) n
   | OSetOut p l v => at_path p (fun m => set_nouts m (setval l v (nouts m))) n
   | OFlags p f r => at_path p (fun m => Node (nlab m) (nkind m) (ncls m) f r (nexe m) (nins m) (nouts m) (nsin m)
